@@ -57,7 +57,8 @@ class Run(object):
     """One complete LP-mode run of the repository on a case."""
 
     def __init__(self, inst, opts, mode='eb', choices=(), noise=None, time_limit=None,
-                 hook=None, text=None, salt=0, decoy=None, presolves=0):
+                 hook=None, text=None, salt=0, decoy=None, presolves=0, threads=None):
+        self.threads = threads
         self.decoy = decoy
         self.presolves = presolves
         self.inst = inst
@@ -97,7 +98,7 @@ class Run(object):
                           threads=None, write=False)
         with self.backend:
             call_repo('solve()', self.solver.solve, msg=False, timeLimit=self.time_limit,
-                      threads=None, write=False)
+                      threads=self.threads, write=False)
         return self
 
     def results(self, which='short'):
@@ -123,7 +124,7 @@ def describe_case(case):
         d['decoy_solved'] = bool(case['decoy'].get('solve'))
         if case['decoy'].get('inst'):
             d['decoy_instance_file'] = refmodel.render(case['decoy']['inst'])
-    for k in ('presolves', 'choices', 'salt', 'mode', 'plan', 'ops', 'time_limit', 'kind', 'matching'):
+    for k in ('threads', 'presolves', 'choices', 'salt', 'mode', 'plan', 'ops', 'time_limit', 'kind', 'matching'):
         if k in case:
             d[k] = case[k]
     return d
